@@ -90,13 +90,17 @@ func main() {
 		only := fs.String("entry", "", "run only this entry (development)")
 		verbose := fs.Bool("v", false, "verbose")
 		fs.Parse(os.Args[2:])
-		os.Exit(check(*prop, *tier, *only, *verbose))
+		code := check(*prop, *tier, *only, *verbose)
+		cleanupReplay()
+		os.Exit(code)
 	case "replay":
 		if len(os.Args) < 3 {
 			fmt.Fprintln(os.Stderr, "usage: symgo replay <file>")
 			os.Exit(2)
 		}
-		os.Exit(replayCmd(os.Args[2]))
+		code := replayCmd(os.Args[2])
+		cleanupReplay()
+		os.Exit(code)
 	}
 	fmt.Fprintln(os.Stderr, "unknown command")
 	os.Exit(2)
@@ -203,32 +207,67 @@ type ReplayFile struct {
 	Trace    []string       `json:"trace,omitempty"`
 }
 
-// nativeReplay runs the entry natively with the model's values; returns the outcomes printed.
-func nativeReplay(spec *Spec, rf *ReplayFile, path string) ([]string, string, error) {
+// replay binary: the package's test binary with the harness overlaid, built once per run.
+var replayBin, replayTmp, replayBuildOut string
+var replayBuildErr error
+
+func buildReplayBinary(spec *Spec) (string, error) {
+	if replayBin != "" || replayBuildErr != nil {
+		return replayBin, replayBuildErr
+	}
 	ov, err := buildOverlay(spec, true)
 	if err != nil {
-		return nil, "", err
+		replayBuildErr = err
+		return "", err
 	}
 	tmp, err := os.MkdirTemp("", "verif-replay-")
 	if err != nil {
-		return nil, "", err
+		replayBuildErr = err
+		return "", err
 	}
-	defer os.RemoveAll(tmp)
+	replayTmp = tmp
 	repl := map[string]string{}
 	i := 0
 	for virt, content := range ov {
 		real := filepath.Join(tmp, fmt.Sprintf("f%d.go", i))
 		i++
 		if err := os.WriteFile(real, content, 0o644); err != nil {
-			return nil, "", err
+			replayBuildErr = err
+			return "", err
 		}
 		repl[virt] = real
 	}
 	ovJSON, _ := json.Marshal(map[string]any{"Replace": repl})
 	ovPath := filepath.Join(tmp, "overlay.json")
 	os.WriteFile(ovPath, ovJSON, 0o644)
-	cmd := exec.Command("go", "test", "-vet=off", "-count=1", "-overlay", ovPath, "-v", "-run", "^TestVerifReplay$", "-timeout", "300s", "./"+spec.Dir)
+	bin := filepath.Join(tmp, "replay.test")
+	cmd := exec.Command("go", "test", "-c", "-vet=off", "-overlay", ovPath, "-o", bin, "./"+spec.Dir)
 	cmd.Dir = repoDir
+	cmd.Env = goEnv()
+	out, err := cmd.CombinedOutput()
+	replayBuildOut = string(out)
+	if err != nil {
+		replayBuildErr = fmt.Errorf("building the native replay binary failed: %v\n%s", err, out)
+		return "", replayBuildErr
+	}
+	replayBin = bin
+	return bin, nil
+}
+
+func cleanupReplay() {
+	if replayTmp != "" {
+		os.RemoveAll(replayTmp)
+	}
+}
+
+// nativeReplay runs the entry natively with the model's values; returns the outcomes printed.
+func nativeReplay(spec *Spec, rf *ReplayFile, path string) ([]string, string, error) {
+	bin, err := buildReplayBinary(spec)
+	if err != nil {
+		return nil, err.Error(), err
+	}
+	cmd := exec.Command(bin, "-test.v", "-test.run", "^TestVerifReplay$", "-test.timeout", "300s")
+	cmd.Dir = filepath.Join(repoDir, spec.Dir)
 	cmd.Env = append(goEnv(), "VERIF_REPLAY="+path, "VERIF_ENTRY="+rf.Entry)
 	out, _ := cmd.CombinedOutput()
 	var outcomes []string
@@ -242,7 +281,11 @@ func nativeReplay(spec *Spec, rf *ReplayFile, path string) ([]string, string, er
 		}
 	}
 	if !done {
-		// the test binary died (e.g. a real panic outside verifRun or a build failure)
+		// the test binary died (a real panic outside verifRun, os.Exit, a deadlock ...)
+		if strings.Contains(string(out), "panic:") || strings.Contains(string(out), "fatal error:") {
+			outcomes = append(outcomes, "panic (process died)")
+			return outcomes, string(out), nil
+		}
 		return outcomes, string(out), fmt.Errorf("native replay did not complete")
 	}
 	return outcomes, string(out), nil
